@@ -68,7 +68,7 @@ def Step.tag : Step → Option Op
   | .wher _ => tag_where | .select _ => tag_select | .withColumn _ _ => tag_withColumn
   | .withColumnRenamed _ _ => tag_withColumnRenamed | .drop _ => tag_drop | .distinct => tag_distinct
   | .orderBy _ => tag_orderBy | .limit _ => tag_limit | .fillna _ _ => tag_fillna
-  | .replace _ _ _ => tag_replace | .toDF _ => tag_toDF | .dropna _ _ _ => tag_dropna
+  | .replace _ _ => tag_replace | .toDF _ => tag_toDF | .dropna _ _ _ => tag_dropna
   | .unpivot _ _ _ _ => tag_unpivot
 
 def setAt {α} (l : List α) (i : Nat) (x : α) : List α := l.set i x
